@@ -392,7 +392,9 @@ func (p *Prog) neverWritten(v *types.Var) bool {
 type tableRow struct{ key, val *Term }
 
 // pureTables: in-module functions of the shape
-//   func f(k K) (V, bool) { switch k { case c1: return v1, true; ... }; return zero, false }
+//
+//	func f(k K) (V, bool) { switch k { case c1: return v1, true; ... }; return zero, false }
+//
 // (or with a default clause, or returning V only) over constants: the function
 // form of a package-level map. Keyed by abbreviated full name.
 var pureTables = map[string][]tableRow{}
